@@ -15,17 +15,24 @@
   `collect_perf_stats()` between "outcome stored" and "subscribers notified".  Whether that step can run for this task is
   the creation-time fact `Cfg.statsOk`.  On the current tree it always can (`_id` has a class-level default, `to_str()`
   falls back to a description without arguments for every Exception their repr() raises); the harness PROBES this once per
-  worker and hands the result to the model, and the property theorem `C10_spec_holds_partial` has `statsOk` as a
+  worker and hands the result to the model, and the property theorem `C10_spec_holds` has `statsOk` as a
   hypothesis.  If the step cannot run (`statsOk = false`: an earlier tree, a mutation) it raises - inside a try/finally
   whose finally notifies the subscribers, so the exception reaches whoever completes the task AFTER everybody was
   notified (`hookExc`); the observer `spec` REJECTS that answer (the completing `value()` does not report the outcome).
 
   Exceptions of subscribers (`FutureBase._computed`, futures.py:118-140): `on_computed.safe_trigger(self)` calls every
   handler of a snapshot, remembers the FIRST exception a handler raised and re-raises it after the last handler;
-  `_computed` catches it (`except Exception as e`) and prints `repr(e)` - INSIDE the handler of the except clause.  An
-  Exception whose `repr()` raises (`Beh.raisingBad`) used to make `_computed` raise what `repr()` raised (`Exc.subRepr`)
-  into `set_value` / `set_error`; since the fix (`core_helpers.safe_repr(e)`) nothing escapes (`subEscapes = false`); the
-  observer `spec` still rejects such an answer with the clause `subscriber-exception-escapes`.
+  `_computed` catches it (`except Exception as e`) and prints `core_helpers.safe_repr(e)` - INSIDE the handler of the
+  except clause.  qcore's `safe_repr(e)` is `try: repr(e) except Exception as x: "<n/a: repr(...) raised %s>" % x`:
+  * `repr(e)` returns (`Beh.raising`): printed, nothing escapes;
+  * `repr(e)` raises an Exception `x` that can be formatted with `%s` (`Beh.raisingBad`): the fallback text is printed,
+    nothing escapes (before fix 591bc3e `repr(e)` was called unguarded and `x` escaped);
+  * `repr(e)` raises an Exception `x` whose `str()` raises `y` (`Beh.raisingWorse`): the `%s` formatting sits inside
+    safe_repr's OWN except clause, `y` leaves `safe_repr`, `_computed` and with it `set_value` / `set_error` /
+    the computing read (`Exc.subRepr`; `subEscapes`).  The outcome is stored and everybody was notified by then.  This is
+    the code as it is (open finding `subscriber-repr-error-escapes`): the observer `spec` REJECTS the completer's answer with
+    the clause of that name, `C10_subscriber_repr_error_counterexample` exhibits it, `C10_spec_holds` excludes it by the
+    hypothesis `noWorseOps`.
 -/
 namespace AsynqModel.Futures
 
@@ -51,7 +58,7 @@ inductive Exc where
   | notSubscribed       -- ValueError of `on_computed.unsubscribe(h)` for a handler that is not subscribed (list.remove)
   | notImplemented      -- FutureBase._compute of a future without provider (ConstFuture after reset_unsafe)
   | hook                -- what AsyncTask.collect_perf_stats raised, if it cannot run for the task (`Cfg.statsOk = false`)
-  | subRepr             -- what `repr(e)` raised inside FutureBase._computed's `except Exception as e` (e = the first exception a subscriber raised)
+  | subRepr             -- what left `safe_repr(e)` inside FutureBase._computed's `except Exception as e` (e = the first exception a subscriber raised)
   | other               -- anything else (never produced by the model; lets the driver parse any observation)
   deriving Repr, DecidableEq, Inhabited
 
@@ -67,7 +74,8 @@ inductive Res where
 inductive Beh where
   | good                 -- returns
   | raising              -- raises an Exception (one that can be printed)
-  | raisingBad           -- raises an Exception whose `repr()` raises an Exception
+  | raisingBad           -- raises an Exception whose `repr()` raises an Exception that `%s` can format
+  | raisingWorse         -- raises an Exception whose `repr()` raises an Exception whose `str()` raises an Exception
   | oneShot              -- `f.on_computed.unsubscribe(itself)`, then returns (the classic one-shot callback)
   | unsub (j : Nat)      -- `f.on_computed.unsubscribe(handler j)` (ValueError -> swallowed, if j is not subscribed)
   | resub (j : Nat)      -- `f.on_computed.subscribe(new well-behaved handler j)`
@@ -167,17 +175,20 @@ def applyBeh (subs : List Sub) (s : Sub) : List Sub :=
 def afterNotify (subs : List Sub) : List Sub := subs.foldl applyBeh subs
 
 /-- does subscriber `s`, called while the LIVE handler list is `live`, raise an Exception out of the handler?
-    `none` = it returns; `some bad` = it raises, `bad` = repr() of that exception raises.  `unsubscribe` of a handler that
-    is not (no longer) in the live list is `list.remove` raising ValueError - inside the handler, so it counts. -/
+    `none` = it returns; `some esc` = it raises an exception `e`, `esc` = `qcore.safe_repr(e)` raises (helpers.py:229-234:
+    `repr(e)` raises `x` and `"... %s" % x` raises too).  `unsubscribe` of a handler that is not (no longer) in the live
+    list is `list.remove` raising ValueError - inside the handler, so it counts. -/
 def behRaises (live : List Sub) (s : Sub) : Option Bool :=
   match s.2 with
   | .raising => some false
-  | .raisingBad => some true
+  | .raisingBad => some false     -- safe_repr catches what repr(e) raised and formats it
+  | .raisingWorse => some true    -- ... unless formatting THAT raises: inside safe_repr's except clause, nothing catches it
   | .oneShot => if hasSub live s.1 then none else some false
   | .unsub j => if hasSub live j then none else some false
   | _ => none
 
-/-- `safe_trigger`: walk the snapshot with the live list, return the FIRST exception raised (is it un-printable?) -/
+/-- `safe_trigger`: walk the snapshot with the live list, return the FIRST exception raised (does safe_repr of it raise?);
+    later exceptions are dropped by `safe_trigger`, so only the first one reaches `_computed`'s except clause -/
 def firstRaise : List Sub → List Sub → Option Bool
   | _, [] => none
   | live, s :: ss =>
@@ -186,9 +197,8 @@ def firstRaise : List Sub → List Sub → Option Bool
     | none => firstRaise (applyBeh live s) ss
 
 /-- `FutureBase._computed`: `except Exception as e: print(... % core_helpers.safe_repr(e))` - does an exception leave
-    `_computed`?  After the fix: never (safe_repr catches what `repr(e)` raises); `firstRaise` stays as the description of
-    which exception `safe_trigger` re-raises. -/
-def subEscapes (_subs : List Sub) : Bool := false
+    `_computed`?  Exactly when `safe_repr` of the exception `safe_trigger` re-raises (the FIRST one of the round) raises. -/
+def subEscapes (subs : List Sub) : Bool := firstRaise subs subs == some true
 
 /-- what the observer EXPECTS of a re-entrant `set_value` / `set_error` made from inside a notification: refused -/
 def expInner : Beh → Option Res
@@ -441,14 +451,14 @@ def unsubStep (k : Kind) (w : Watch) (id : Nat) (r : Res) : Except String Watch 
 
 /-- an accepted `set_value` / `set_error` with outcome `o` on a future the observer knows uncomputed: nothing ran, the
     future holds `o`, every subscriber was notified, and the call RETURNED.  The one wrong answer that gets a name of its
-    own is the defect the model mirrors: the tracked subscribers predict that the first exception raised in the round cannot
-    be printed (`subEscapes`) AND the call raised exactly what `repr()` raised, everything else being right. -/
+    own is the open finding the model mirrors: the tracked subscribers predict that `safe_repr` of the first exception
+    raised in the round raises (`subEscapes`) AND the call raised exactly that, everything else being right. -/
 def setStep (w : Watch) (ob : Obs) (o : Outc) : Except String Watch :=
   if ob.runs != w.runs then .error "provider-once"
   else if ob.after != some o then .error "set"
   else if !notifiedAll w.subs ob.cbs o then .error "notify-once"
   else if ob.res == .unit then .ok { w with known := some o, subs := afterNotify w.subs, done := true }
-  else if subEscapes w.subs && ob.res == .raised .subRepr then .error "subscriber-exception-escapes"
+  else if subEscapes w.subs && ob.res == .raised .subRepr then .error "subscriber-repr-error-escapes"
   else .error "set"
 
 /-- a read (`value()`, call, `error()`) of a future the observer knows uncomputed -/
@@ -459,7 +469,7 @@ def readStep (k : Kind) (w : Watch) (ob : Obs) : Except String Watch :=
     else if !computeOk k w ob o then .error "compute-outcome"
     else if !notifiedAll w.subs ob.cbs o then .error "notify-once"
     else if freshReadOk k ob.op ob.res o then .ok { w with known := some o, subs := afterNotify w.subs, done := true }
-    else if subEscapes w.subs && ob.res == .raised k.escRead then .error "subscriber-exception-escapes"
+    else if subEscapes w.subs && ob.res == .raised k.escRead then .error "subscriber-repr-error-escapes"
     else .error "compute-read"
   | none =>
     -- only a future that has no computation (ConstFuture/ErrorFuture after reset_unsafe) may stay uncomputed
